@@ -57,7 +57,7 @@ func runBatchHarness(r *ev.Run) {
 			r.Floor(s, 10)
 		}
 	}
-	n := r.Pick(1500, 20000)
+	n := r.Pick(3000, 30000)
 	outkit.ParallelFor(n, workers, func(ci int) { runBatchCase(r, ci) })
 }
 
@@ -69,7 +69,7 @@ func runBatchCase(r *ev.Run, ci int) {
 	faultAt, kind := 0, outkit.FaultNone
 	if rng.IntN(10) < 7 {
 		faultAt = 1 + rng.IntN(nOps)
-		kind = []outkit.FaultKind{outkit.FaultErrDiscard, outkit.FaultErrAfterRead, outkit.FaultSticky, outkit.FaultCancel, outkit.FaultCancelAfter, outkit.FaultCancelAfter}[rng.IntN(6)]
+		kind = []outkit.FaultKind{outkit.FaultErrDiscard, outkit.FaultErrAfterRead, outkit.FaultSticky, outkit.FaultCancel, outkit.FaultCancelAfter, outkit.FaultCancelAfter, outkit.FaultCancelAfter}[rng.IntN(7)]
 	}
 	r.Case("batch case %d size=%d conc=%d ops=%d fault=%s@%d", ci, batchSize, concurrency, nOps, kind, faultAt)
 
